@@ -10,11 +10,12 @@ SWAP = {'==': '==', '!=': '!=', '<': '>', '>': '<', '<=': '>=', '>=': '<='}
 
 
 class Guard:
-    __slots__ = ('fn', 'rel', 'lhs', 'rhs', 'errs', 'ln', 'block', 'idiom', 'fail_block')
+    __slots__ = ('fn', 'rel', 'lhs', 'rhs', 'errs', 'ln', 'block', 'idiom', 'fail_block', 'raw')
 
     def __init__(self, fn, rel, lhs, rhs, errs, ln, block, idiom, fail_block=None):
         self.fn, self.rel, self.lhs, self.rhs, self.errs, self.ln, self.block, self.idiom = fn, rel, lhs, rhs, errs, ln, block, idiom
         self.fail_block = fail_block
+        self.raw = None
 
     def text(self):
         if self.rel == 'truth':
@@ -115,6 +116,29 @@ class GuardExtractor:
                 return (NEG[r[0]], r[1], r[2])
         return ('truth', self.o.def_str(d, 0), '')
 
+    def raw_of_local(self, l, depth=0):
+        """raw operands (a, b) of the comparison that defines bool local l, or None"""
+        ds = self.b.defs.get(l, [])
+        if len(ds) != 1 or depth > 6:
+            return None
+        d = ds[0]
+        if d[0] == 'st':
+            rv = d[1]
+            if rv['k'] == 'bin' and rv['op'] in CMP:
+                return (rv['a'], rv['b'])
+            if rv['k'] in ('un', 'use'):
+                o = rv.get('a') or rv.get('o')
+                if o and o['k'] in ('copy', 'move') and not o['pl']['p']:
+                    return self.raw_of_local(o['pl']['l'], depth + 1)
+            return None
+        t = d[1]
+        name = callee_path(t)
+        if re.search(r'PartialEq::(eq|ne)$|PartialOrd::(lt|le|gt|ge)$', name):
+            return (t['args'][0], t['args'][1])
+        if re.search(r'::not$', name) and t['args'] and t['args'][0]['k'] in ('copy', 'move') and not t['args'][0]['pl']['p']:
+            return self.raw_of_local(t['args'][0]['pl']['l'], depth + 1)
+        return None
+
     def guards(self):
         out = []
         B = self.b.B
@@ -140,6 +164,7 @@ class GuardExtractor:
                         if rel[0] in NEG:
                             r = rel[0] if failing_when_true else NEG[rel[0]]
                             out.append(Guard(fnq, r, rel[1], rel[2], errs, b['ln'], bi, 'branch', fb))
+                            out[-1].raw = self.raw_of_local(l)
                         else:
                             pos = (rel[0] == 'truth') == failing_when_true
                             out.append(Guard(fnq, 'truth' if pos else 'not', rel[1], '', errs, b['ln'], bi, 'branch', fb))
